@@ -1311,15 +1311,15 @@ Section join.
   (** fields the linking operations leave alone *)
   Definition frame (j j' : Join.t) : Prop :=
     Join.last j' = Join.last j /\ Join.value j' = Join.value j /\ Join.pending j' = Join.pending j /\
-    Join.refresh j' = Join.refresh j /\ Join.ingraph j' = Join.ingraph j /\ Join.vals j' = Join.vals j /\
-    Join.outer j' = Join.outer j /\ (Join.dirty j = ∅ -> Join.dirty j' = ∅).
+    Join.changedAt0 j' = Join.changedAt0 j /\ Join.ingraph j' = Join.ingraph j /\ Join.vals j' = Join.vals j /\
+    Join.outer j' = Join.outer j /\ (Join.dirty j = ∅ -> Join.dirty j' = ∅) /\ Join.cdefs j' = Join.cdefs j.
 
   Lemma frame_refl j : frame j j.
   Proof. repeat split; auto. Qed.
 
   Lemma frame_trans j1 j2 j3 : frame j1 j2 -> frame j2 j3 -> frame j1 j3.
   Proof.
-    intros (A1 & A2 & A3 & A4 & A5 & A6 & A7 & A8) (B1 & B2 & B3 & B4 & B5 & B6 & B7 & B8).
+    intros (A1 & A2 & A3 & A4 & A5 & A6 & A7 & A8 & A9) (B1 & B2 & B3 & B4 & B5 & B6 & B7 & B8 & B9).
     repeat split; try congruence. auto.
   Qed.
 
@@ -1543,87 +1543,89 @@ Section join.
     pre_dom : forall k, Join.value j !! k = None <-> Join.linked j !! k = None;
     pre_outer : consistent (Join.outer j);
     pre_dirty : Join.dirty j = ∅;
-    pre_fresh : (fixed = true /\ Join.refresh j = true) \/
+    pre_fresh : (fixed = true /\ Join.changedAt0 j = true) \/
                 forall k x, Join.linked j !! k = Some x ->
                   Join.value j !! k = Some (val_of (Join.vals j) x) \/ k ∈ Join.pending j
   }.
 
   Definition post (j j' : Join.t) : Prop :=
     structure j' /\ Join.linked j' = Join.outer j /\ Join.last j' = Join.outer j /\ Join.outer j' = Join.outer j /\
-    Join.vals j' = Join.vals j /\ Join.ingraph j' = Join.ingraph j /\ Join.dirty j' = ∅ /\ Join.pending j' = [] /\
-    Join.refresh j' = false /\ Join.value j' = F_join (Join.vals j) (Join.outer j).
+    Join.ingraph j' = Join.ingraph j /\ Join.dirty j' = ∅ /\ Join.pending j' = [] /\
+    Join.changedAt0 j' = false /\ Join.cdefs j' = Join.cdefs j /\
+    Join.value j' = F_join (Join.vals j') (Join.outer j).
 
-  Lemma Stabilize_spec j : pre j -> post j (Join.Stabilize fixed j).
+  Lemma Stabilize_spec j :
+    pre j -> post j (Join.Stabilize fixed j) /\ Join.vals (Join.Stabilize fixed j) = Join.vals j.
   Proof.
     intros [St Hlinked Hdom Houter Hdirty Hfresh].
     set (cs := merge_diff (Some Z.eqb) (Join.last j) (Join.outer j)).
-    destruct (struct_loop cs j (Join.value j)) as (St1 & Hl1 & Ho1 & Hf1).
+    set (out0 := if fixed && Join.changedAt0 j then Join.refresh_all j (Join.value j) else Join.value j).
+    destruct (struct_loop cs j out0) as (St1 & Hl1 & Ho1 & Hf1).
     { apply NoDup_merge_diff_keys. }
     { intros c Hc. rewrite Hlinked. eapply merge_diff_valid. exact Hc. }
     { intros c Hc. apply elem_of_merge_diff in Hc. unfold diff_at, classify in Hc.
       destruct (Join.last j !! ckey c) as [a|], (Join.outer j !! ckey c) as [b|] eqn:Eo; try destruct (veqb _ a b);
         inversion Hc as [Hc']; rewrite <- Hc' in *; simpl in *; auto; apply Houter; exact Eo. }
     { exact St. }
-    destruct Hf1 as (F1 & F2 & F3 & F4 & F5 & F6 & F7 & F8).
-    assert (HL : Join.linked (fold_left Join.struct_step cs (j, Join.value j)).1 = Join.outer j).
+    destruct Hf1 as (F1 & F2 & F3 & F4 & F5 & F6 & F7 & F8 & F9).
+    assert (HL : Join.linked (fold_left Join.struct_step cs (j, out0)).1 = Join.outer j).
     { rewrite Hl1, Hlinked. apply applied_exact. apply eq_exact_eqb. }
-    unfold Join.Stabilize. fold cs.
-    set (jo := fold_left Join.struct_step cs (j, Join.value j)) in *.
-    unfold post. simpl.
+    unfold Join.Stabilize. fold cs. fold out0.
+    set (jo := fold_left Join.struct_step cs (j, out0)) in *.
+    unfold post. simpl. split; [|exact F6].
     split; [apply structure_with_value_pending; exact St1|].
-    split; [exact HL|]. split; [reflexivity|]. split; [exact F7|]. split; [exact F6|]. split; [exact F5|].
-    split; [exact (F8 Hdirty)|]. split; [reflexivity|]. split; [reflexivity|].
+    split; [exact HL|]. split; [reflexivity|]. split; [exact F7|]. split; [exact F5|].
+    split; [exact (F8 Hdirty)|]. split; [reflexivity|]. split; [reflexivity|]. split; [exact F9|].
     apply map_eq. intros k. unfold F_join. rewrite lookup_fmap.
     rewrite apply_pending_lookup, HL, F6, F3.
+    assert (Hout0 : out0 !! k =
+                    if fixed && Join.changedAt0 j
+                    then match Join.last j !! k with Some x => Some (val_of (Join.vals j) x) | None => Join.value j !! k end
+                    else Join.value j !! k).
+    { unfold out0. destruct (fixed && Join.changedAt0 j); [|reflexivity]. rewrite refresh_all_lookup, Hlinked. reflexivity. }
     assert (Hout1 : jo.2 !! k = match diff_at (Some Z.eqb) (Join.last j) (Join.outer j) k with
-                                | Some c => out_h (Join.vals j) c None | None => Join.value j !! k end).
+                                | Some c => out_h (Join.vals j) c None | None => out0 !! k end).
     { rewrite Ho1. unfold cs. rewrite fold_diff_lookup.
       destruct (diff_at _ _ _ k) as [[]|]; reflexivity. }
-    assert (Hout2 : (if fixed && Join.refresh jo.1 then Join.refresh_all jo.1 jo.2 else jo.2) !! k =
-                    if fixed && Join.refresh j
-                    then match Join.outer j !! k with Some x => Some (val_of (Join.vals j) x) | None => jo.2 !! k end
-                    else jo.2 !! k).
-    { rewrite F4. destruct (fixed && Join.refresh j); [|reflexivity]. rewrite refresh_all_lookup, HL, F6. reflexivity. }
     destruct (Join.outer j !! k) as [x|] eqn:Eo; simpl.
     - destruct (decide (k ∈ Join.pending j)) as [Hin|Hnin]; [reflexivity|].
-      rewrite Hout2. destruct (fixed && Join.refresh j) eqn:Efr; [reflexivity|].
       rewrite Hout1. unfold diff_at, classify. rewrite Eo.
       destruct (Join.last j !! k) as [x'|] eqn:El; [|reflexivity].
       simpl. destruct (x' =? x) eqn:Ex; [|reflexivity].
-      apply Z.eqb_eq in Ex. subst x'.
+      apply Z.eqb_eq in Ex. subst x'. rewrite Hout0; try rewrite El.
+      destruct (fixed && Join.changedAt0 j) eqn:Efr; [reflexivity|].
       destruct Hfresh as [[-> Hr]|Hfresh]; [rewrite Hr in Efr; discriminate|].
       destruct (Hfresh k x) as [Hv|Hp]; [rewrite Hlinked; exact El|exact Hv|contradiction].
     - assert (Hgoal : jo.2 !! k = None).
       { rewrite Hout1. unfold diff_at, classify. rewrite Eo.
         destruct (Join.last j !! k) as [x'|] eqn:El; [reflexivity|].
-        apply Hdom. rewrite Hlinked. exact El. }
-      assert (Hgoal2 : (if fixed && Join.refresh jo.1 then Join.refresh_all jo.1 jo.2 else jo.2) !! k = None).
-      { rewrite Hout2. destruct (fixed && Join.refresh j); exact Hgoal. }
-      destruct (decide (k ∈ Join.pending j)); exact Hgoal2.
+        rewrite Hout0; try rewrite El. assert (Hv : Join.value j !! k = None) by (apply Hdom; rewrite Hlinked; exact El).
+        destruct (fixed && Join.changedAt0 j); exact Hv. }
+      destruct (decide (k ∈ Join.pending j)); exact Hgoal.
   Qed.
 
-  Lemma post_pre j j' : consistent (Join.outer j) -> post j j' -> pre j'.
+  Lemma post_dom j j' : post j j' -> forall k, Join.value j' !! k = None <-> Join.linked j' !! k = None.
   Proof.
-    intros Hco (St & Hl & Hlast & Hout & Hvals & Hg & Hd & Hp & Hr & Hv).
-    constructor.
-    - exact St.
-    - congruence.
-    - intros k. rewrite Hv, Hl. unfold F_join. rewrite lookup_fmap. destruct (Join.outer j !! k); simpl; split; congruence.
-    - rewrite Hout. exact Hco.
-    - exact Hd.
-    - right. intros k x Hk. left. rewrite Hv, Hvals. unfold F_join. rewrite lookup_fmap.
-      rewrite Hl in Hk. rewrite Hk. reflexivity.
+    intros (St & Hl & Hlast & Hout & Hg & Hd & Hp & Hr & Hc & Hv) k.
+    rewrite Hv, Hl. unfold F_join. rewrite lookup_fmap. destruct (Join.outer j !! k); simpl; split; congruence.
   Qed.
 
-  (** ** notifications, a whole pass, the other events *)
+  Lemma post_fresh j j' : post j j' ->
+    forall k x, Join.linked j' !! k = Some x -> Join.value j' !! k = Some (val_of (Join.vals j') x).
+  Proof.
+    intros (St & Hl & Hlast & Hout & Hg & Hd & Hp & Hr & Hc & Hv) k x Hk.
+    rewrite Hv. unfold F_join. rewrite lookup_fmap. rewrite Hl in Hk. rewrite Hk. reflexivity.
+  Qed.
+
+  (** ** notifications, computed inner nodes, a whole pass, the other events *)
   Lemma with_value_pending_eta j :
-    Join.with_value_pending j (Join.value j) (Join.pending j) (Join.last j) (Join.refresh j) = j.
+    Join.with_value_pending j (Join.value j) (Join.pending j) (Join.last j) (Join.changedAt0 j) = j.
   Proof. destruct j; reflexivity. Qed.
 
   Lemma ChildChanged_fold (xs : list Z) j :
     fold_left Join.ChildChanged xs j =
     Join.with_value_pending j (Join.value j) (Join.pending j ++ omap (fun x => Join.byNode j !! x) xs)
-                            (Join.last j) (Join.refresh j).
+                            (Join.last j) (Join.changedAt0 j).
   Proof.
     revert j. induction xs as [|x xs IH]; intros j; simpl.
     - rewrite app_nil_r. symmetry. apply with_value_pending_eta.
@@ -1632,6 +1634,290 @@ Section join.
       + reflexivity.
   Qed.
 
+  Lemma notify_vars_eq j :
+    Join.notify_vars j =
+    Join.Mk (Join.last j) (Join.linked j) (Join.byNode j) (Join.value j) (Join.parents j)
+      (Join.pending j ++ omap (fun x => Join.byNode j !! x)
+         (filter (fun x => bool_decide (x ∈ Join.edges j)) (sorted_keys (Join.dirty j))))
+      (Join.changedAt0 j) false (Join.ingraph j) (Join.edges j) ∅ (Join.vals j) (Join.outer j)
+      (Join.bvals j) (Join.cdefs j) (Join.cstale j).
+  Proof. unfold Join.notify_vars. cbv zeta. rewrite ChildChanged_fold. reflexivity. Qed.
+
+  (** *** stale computed nodes: which are known, and that [link] marks the join stale *)
+  Definition Sinv (j : Join.t) : Prop := forall x, x ∈ Join.cstale j -> x ∈ map fst (Join.cdefs j).
+  Definition Qinv (j : Join.t) : Prop :=
+    Join.restale j = true \/ forall x, range_has (Join.linked j) x -> x ∉ Join.cstale j.
+
+  Lemma is_lazy_known j x : Join.is_lazy j x = true -> x ∈ map fst (Join.cdefs j).
+  Proof.
+    unfold Join.is_lazy, Join.cdef_of. destruct (list_find _ (Join.cdefs j)) as [[i p]|] eqn:E; [|discriminate].
+    intros _. apply list_find_Some in E as (Hi & Hp & _). simpl in Hp. subst x.
+    apply elem_of_list_fmap. exists p. split; [reflexivity|]. eapply elem_of_list_lookup_2. exact Hi.
+  Qed.
+
+  Lemma unlink_QS j key :
+    (Qinv j -> Qinv (Join.unlink j key)) /\ (Sinv j -> Sinv (Join.unlink j key)) /\
+    Join.cdefs (Join.unlink j key) = Join.cdefs j.
+  Proof.
+    unfold Join.unlink. destruct (Join.linked j !! key) as [xo|] eqn:El; [|auto].
+    split; [|split; [|reflexivity]].
+    - intros [Hr|Hq]; [left; exact Hr|right]. simpl. intros x [k Hk]. apply Hq.
+      destruct (decide (k = key)) as [->|Hne]; [rewrite lookup_delete in Hk; discriminate|].
+      rewrite lookup_delete_ne in Hk by congruence. exists k. exact Hk.
+    - intros Hs x Hx. apply Hs. exact Hx.
+  Qed.
+
+  Lemma link_QS j key inner :
+    Qinv (Join.link j key inner) /\ (Sinv j -> Sinv (Join.link j key inner)) /\
+    Join.cdefs (Join.link j key inner) = Join.cdefs j.
+  Proof.
+    split; [left; reflexivity|]. split; [|reflexivity].
+    intros Hs x. unfold Join.link. simpl.
+    destruct (Join.is_lazy j inner && negb (bool_decide (inner ∈ Join.edges j))) eqn:E; [|apply Hs].
+    rewrite elem_of_union, elem_of_singleton. intros [Hx| ->]; [apply Hs; exact Hx|].
+    apply andb_true_iff in E as [E _]. apply is_lazy_known. exact E.
+  Qed.
+
+  Lemma struct_loop_QS cs j out :
+    Qinv j -> Sinv j ->
+    let jo := fold_left Join.struct_step cs (j, out) in
+    Qinv jo.1 /\ Sinv jo.1 /\ Join.cdefs jo.1 = Join.cdefs j.
+  Proof.
+    revert j out. induction cs as [|c cs IH]; intros j out Hq Hs; simpl; [auto|].
+    destruct c as [k x|k v|k o x]; simpl.
+    - destruct (link_QS j k x) as (Q1 & S1 & C1).
+      destruct (IH (Join.link j k x) (<[k := val_of (Join.vals j) x]> out) Q1 (S1 Hs)) as (Q2 & S2 & C2).
+      split; [exact Q2|]. split; [exact S2|]. rewrite C2. exact C1.
+    - destruct (unlink_QS j k) as (Q1 & S1 & C1).
+      destruct (IH (Join.unlink j k) (delete k out) (Q1 Hq) (S1 Hs)) as (Q2 & S2 & C2).
+      split; [exact Q2|]. split; [exact S2|]. rewrite C2. exact C1.
+    - destruct (unlink_QS j k) as (Q0 & S0 & C0).
+      destruct (link_QS (Join.unlink j k) k x) as (Q1 & S1 & C1).
+      destruct (IH (Join.link (Join.unlink j k) k x) (<[k := val_of (Join.vals j) x]> out) Q1 (S1 (S0 Hs))) as (Q2 & S2 & C2).
+      split; [exact Q2|]. split; [exact S2|]. rewrite C2, C1. exact C0.
+  Qed.
+
+  Lemma Stabilize_QS j :
+    Qinv j -> Sinv j -> Qinv (Join.Stabilize fixed j) /\ Sinv (Join.Stabilize fixed j).
+  Proof.
+    intros Hq Hs. unfold Join.Stabilize.
+    match goal with |- context [fold_left Join.struct_step ?cs (j, ?o)] =>
+      destruct (struct_loop_QS cs j o Hq Hs) as (Q & S & C) end.
+    split.
+    - destruct Q as [Hr|Hq']; [left; exact Hr|right; exact Hq'].
+    - exact S.
+  Qed.
+
+  (** *** a computed node recomputes *)
+  Definition notif (j : Join.t) (x : Z) : list Z :=
+    if Join.ingraph j && bool_decide (x ∈ Join.edges j)
+    then match Join.byNode j !! x with Some k => [k] | None => [] end
+    else [].
+
+  Lemma recompute_one_eq j x d :
+    Join.recompute_one j x d =
+    Join.Mk (Join.last j) (Join.linked j) (Join.byNode j) (Join.value j) (Join.parents j)
+      (Join.pending j ++ notif j x) (Join.changedAt0 j) (Join.restale j) (Join.ingraph j) (Join.edges j)
+      (Join.dirty j) (<[x := Join.cval d (Join.bvals j)]> (Join.vals j)) (Join.outer j) (Join.bvals j)
+      (Join.cdefs j) (Join.cstale j ∖ {[x]}).
+  Proof.
+    unfold Join.recompute_one, notif. simpl.
+    destruct (Join.ingraph j && bool_decide (x ∈ Join.edges j)); simpl.
+    - unfold Join.ChildChanged. simpl. destruct (Join.byNode j !! x); simpl; [reflexivity|].
+      rewrite app_nil_r. reflexivity.
+    - rewrite app_nil_r. reflexivity.
+  Qed.
+
+  (* what a phase of recomputations leaves alone *)
+  Definition phase_frame (j j' : Join.t) : Prop :=
+    Join.last j' = Join.last j /\ Join.linked j' = Join.linked j /\ Join.byNode j' = Join.byNode j /\
+    Join.value j' = Join.value j /\ Join.parents j' = Join.parents j /\ Join.changedAt0 j' = Join.changedAt0 j /\
+    Join.restale j' = Join.restale j /\ Join.ingraph j' = Join.ingraph j /\ Join.edges j' = Join.edges j /\
+    Join.dirty j' = Join.dirty j /\ Join.outer j' = Join.outer j /\ Join.cdefs j' = Join.cdefs j /\
+    (forall x, x ∈ Join.cstale j' -> x ∈ Join.cstale j) /\
+    (Join.ingraph j = false -> Join.pending j' = Join.pending j).
+
+  Lemma phase_frame_refl j : phase_frame j j.
+  Proof. unfold phase_frame. auto 20. Qed.
+
+  Lemma phase_frame_trans j1 j2 j3 : phase_frame j1 j2 -> phase_frame j2 j3 -> phase_frame j1 j3.
+  Proof.
+    intros (A1 & A2 & A3 & A4 & A5 & A6 & A7 & A8 & A9 & A10 & A11 & A12 & A13 & A14)
+           (B1 & B2 & B3 & B4 & B5 & B6 & B7 & B8 & B9 & B10 & B11 & B12 & B13 & B14).
+    unfold phase_frame. repeat split; try congruence.
+    - auto.
+    - intros Hg. rewrite B14 by congruence. auto.
+  Qed.
+
+  Lemma recompute_one_frame j x d : phase_frame j (Join.recompute_one j x d).
+  Proof.
+    rewrite recompute_one_eq. unfold phase_frame. simpl. repeat split; auto.
+    - intros y Hy. set_solver.
+    - intros Hg. unfold notif. rewrite Hg. simpl. apply app_nil_r.
+  Qed.
+
+  Lemma structure_phase_frame j j' : phase_frame j j' -> structure j -> structure j'.
+  Proof.
+    intros (A1 & A2 & A3 & A4 & A5 & A6 & A7 & A8 & A9 & _) St. constructor.
+    - rewrite A3, A2. apply St.
+    - rewrite A5. apply St.
+    - rewrite A5, A2. apply St.
+    - rewrite A8, A9, A2. apply St.
+    - rewrite A2. apply St.
+  Qed.
+
+  Definition pstep (cond : Join.t -> Z -> Join.cdef -> bool) (j : Join.t) (p : Z * Join.cdef) : Join.t :=
+    if cond j p.1 p.2 then Join.recompute_one j p.1 p.2 else j.
+
+  Lemma pstep_frame cond j p : phase_frame j (pstep cond j p).
+  Proof. unfold pstep. destruct (cond j p.1 p.2); [apply recompute_one_frame|apply phase_frame_refl]. Qed.
+
+  Lemma phase_fold_frame cond l j : phase_frame j (fold_left (pstep cond) l j).
+  Proof.
+    revert j. induction l as [|p l IH]; intros j; simpl; [apply phase_frame_refl|].
+    eapply phase_frame_trans; [apply pstep_frame|apply IH].
+  Qed.
+
+  Definition condA (early : list Z) (j : Join.t) (x : Z) (d : Join.cdef) : bool :=
+    bool_decide (x ∈ Join.cstale j) && Join.necessary j x d &&
+    (Join.ingraph j && bool_decide (x ∈ Join.edges j) || bool_decide (x ∈ early)).
+  Definition condC (j : Join.t) (x : Z) (d : Join.cdef) : bool :=
+    bool_decide (x ∈ Join.cstale j) && Join.necessary j x d.
+
+  Lemma phaseA_fold early j : Join.phaseA early j = fold_left (pstep (condA early)) (Join.cdefs j) j.
+  Proof. reflexivity. Qed.
+  Lemma phaseC_fold j : Join.phaseC j = fold_left (pstep condC) (Join.cdefs j) j.
+  Proof. reflexivity. Qed.
+
+  (* a phase takes every stale linked node, and only stale nodes *)
+  Definition takes_linked (cond : Join.t -> Z -> Join.cdef -> bool) : Prop :=
+    forall j y d k, structure j -> Join.ingraph j = true ->
+      Join.linked j !! k = Some y -> y ∈ Join.cstale j -> cond j y d = true.
+  Definition only_stale (cond : Join.t -> Z -> Join.cdef -> bool) : Prop :=
+    forall j y d, cond j y d = true -> y ∈ Join.cstale j.
+
+  Lemma necessary_linked j y d k :
+    structure j -> Join.ingraph j = true -> Join.linked j !! k = Some y ->
+    Join.necessary j y d = true /\ bool_decide (y ∈ Join.edges j) = true.
+  Proof.
+    intros St Hg Hk.
+    assert (He : bool_decide (y ∈ Join.edges j) = true)
+      by (apply bool_decide_eq_true; apply (st_edges j St Hg); exists k; exact Hk).
+    split; [|exact He]. unfold Join.necessary. rewrite Hg, He. destruct (Join.cd_lazy d); reflexivity.
+  Qed.
+
+  Lemma condA_takes early : takes_linked (condA early).
+  Proof.
+    intros j y d k St Hg Hk Hc. unfold condA.
+    destruct (necessary_linked j y d k St Hg Hk) as [Hn He].
+    rewrite Hn, He, Hg. rewrite bool_decide_true by exact Hc. reflexivity.
+  Qed.
+  Lemma condC_takes : takes_linked condC.
+  Proof.
+    intros j y d k St Hg Hk Hc. unfold condC.
+    destruct (necessary_linked j y d k St Hg Hk) as [Hn _].
+    rewrite Hn. rewrite bool_decide_true by exact Hc. reflexivity.
+  Qed.
+  Lemma condA_only early : only_stale (condA early).
+  Proof.
+    intros j y d H. unfold condA in H. apply andb_true_iff in H as [H _]. apply andb_true_iff in H as [H _].
+    apply bool_decide_eq_true in H. exact H.
+  Qed.
+  Lemma condC_only : only_stale condC.
+  Proof.
+    intros j y d H. unfold condC in H. apply andb_true_iff in H as [H _].
+    apply bool_decide_eq_true in H. exact H.
+  Qed.
+
+  (* the pending-or-fresh form of "every linked key is up to date or about to be" *)
+  Definition fresh_pending (j : Join.t) : Prop :=
+    forall k x, Join.linked j !! k = Some x ->
+      Join.value j !! k = Some (val_of (Join.vals j) x) \/ k ∈ Join.pending j.
+
+  Definition fresh_or_coming (l : list (Z * Join.cdef)) (j : Join.t) : Prop :=
+    forall k x, Join.linked j !! k = Some x ->
+      Join.value j !! k = Some (val_of (Join.vals j) x) \/ k ∈ Join.pending j \/
+      (x ∈ Join.cstale j /\ x ∈ map fst l).
+
+  Lemma pstep_fresh cond (l : list (Z * Join.cdef)) j y d :
+    takes_linked cond -> structure j -> Join.ingraph j = true ->
+    fresh_or_coming ((y, d) :: l) j -> fresh_or_coming l (pstep cond j (y, d)).
+  Proof.
+    intros Hmust St Hg H k x. unfold pstep. simpl.
+    destruct (cond j y d) eqn:Ec.
+    - rewrite recompute_one_eq. simpl. intros Hk.
+      destruct (decide (x = y)) as [->|Hne].
+      + right. left. apply elem_of_app. right. unfold notif. rewrite Hg. simpl.
+        rewrite bool_decide_true by (apply (st_edges j St Hg); exists k; exact Hk).
+        rewrite (proj2 (st_inverse j St y k) Hk). left.
+      + destruct (H k x Hk) as [Hv|[Hp|[Hc Hin]]].
+        * left. rewrite Hv. unfold val_of. rewrite lookup_insert_ne by congruence. reflexivity.
+        * right. left. apply elem_of_app. left. exact Hp.
+        * right. right. split; [set_solver|]. simpl in Hin. apply elem_of_cons in Hin as [?|?]; [congruence|assumption].
+    - intros Hk. destruct (H k x Hk) as [Hv|[Hp|[Hc Hin]]]; [left; exact Hv|right; left; exact Hp|].
+      right. right. split; [exact Hc|]. simpl in Hin. apply elem_of_cons in Hin as [Hxy|?]; [|assumption].
+      subst x. rewrite (Hmust j y d k St Hg Hk Hc) in Ec. discriminate.
+  Qed.
+
+  Lemma phase_fold_fresh cond (l : list (Z * Join.cdef)) j :
+    takes_linked cond -> structure j -> Join.ingraph j = true ->
+    fresh_or_coming l j -> fresh_pending (fold_left (pstep cond) l j).
+  Proof.
+    intros Hmust. revert j. induction l as [|[y d] l IH]; intros j St Hg H; simpl.
+    - intros k x Hk. destruct (H k x Hk) as [Hv|[Hp|[_ Hin]]]; [left; exact Hv|right; exact Hp|inversion Hin].
+    - apply IH.
+      + eapply structure_phase_frame; [apply pstep_frame|exact St].
+      + destruct (pstep_frame cond j (y, d)) as (_ & _ & _ & _ & _ & _ & _ & Hg' & _). congruence.
+      + apply pstep_fresh; assumption.
+  Qed.
+
+  (* after a phase no linked node is stale, provided every stale linked node was on the list *)
+  Lemma phase_fold_clean cond (l : list (Z * Join.cdef)) j :
+    takes_linked cond -> structure j -> Join.ingraph j = true ->
+    (forall x, range_has (Join.linked j) x -> x ∈ Join.cstale j -> x ∈ map fst l) ->
+    forall x, range_has (Join.linked j) x -> x ∉ Join.cstale (fold_left (pstep cond) l j).
+  Proof.
+    intros Hmust. revert j. induction l as [|[y d] l IH]; intros j St Hg H x Hx; simpl.
+    - intros Hc. specialize (H x Hx Hc). inversion H.
+    - destruct (pstep_frame cond j (y, d)) as (_ & Hl & _ & _ & _ & _ & _ & Hg' & _ & _ & _ & _ & Hsub & _).
+      assert (Hx' : range_has (Join.linked (pstep cond j (y, d))) x) by (rewrite Hl; exact Hx).
+      apply IH; [eapply structure_phase_frame; [apply pstep_frame|exact St]|congruence| |exact Hx'].
+      intros z Hz Hc. rewrite Hl in Hz. pose proof (Hsub z Hc) as Hc0.
+      specialize (H z Hz Hc0). simpl in H. apply elem_of_cons in H as [->|H]; [|exact H].
+      exfalso. destruct Hz as [k Hk]. unfold pstep in Hc. simpl in Hc.
+      rewrite (Hmust j y d k St Hg Hk Hc0) in Hc. rewrite recompute_one_eq in Hc. simpl in Hc. set_solver.
+  Qed.
+
+  (* a phase that takes no linked node changes nothing the join can see *)
+  Lemma phase_fold_quiet cond (l : list (Z * Join.cdef)) j :
+    only_stale cond -> structure j -> Join.ingraph j = true ->
+    (forall x, range_has (Join.linked j) x -> x ∉ Join.cstale j) ->
+    Join.pending (fold_left (pstep cond) l j) = Join.pending j /\
+    forall x, range_has (Join.linked j) x -> Join.vals (fold_left (pstep cond) l j) !! x = Join.vals j !! x.
+  Proof.
+    intros Honly. revert j. induction l as [|[y d] l IH]; intros j St Hg H; simpl; [auto|].
+    destruct (pstep_frame cond j (y, d)) as (_ & Hl & _ & _ & _ & _ & _ & Hg' & _ & _ & _ & _ & Hsub & _).
+    destruct (IH (pstep cond j (y, d))) as (Hp & Hv).
+    { eapply structure_phase_frame; [apply pstep_frame|exact St]. }
+    { congruence. }
+    { intros x Hx Hc. rewrite Hl in Hx. apply (H x Hx). apply Hsub. exact Hc. }
+    assert (Hstep : Join.pending (pstep cond j (y, d)) = Join.pending j /\
+                    forall x, range_has (Join.linked j) x -> Join.vals (pstep cond j (y, d)) !! x = Join.vals j !! x).
+    { unfold pstep. simpl. destruct (cond j y d) eqn:Ec; [|auto].
+      pose proof (Honly j y d Ec) as Hy.
+      assert (Hnl : ~ range_has (Join.linked j) y) by (intros Hr; exact (H y Hr Hy)).
+      rewrite recompute_one_eq. simpl. split.
+      - unfold notif. rewrite Hg. simpl.
+        rewrite bool_decide_false by (intros He; apply Hnl; apply (st_edges j St Hg); exact He).
+        apply app_nil_r.
+      - intros x Hx. apply lookup_insert_ne. intros ->. contradiction. }
+    destruct Hstep as (Hp1 & Hv1). split; [congruence|].
+    intros x Hx. rewrite Hv by (rewrite Hl; exact Hx). apply Hv1. exact Hx.
+  Qed.
+
+  (** *** the invariant between events *)
+  Context (cdefs0 : list (Z * Join.cdef)).
+
   Record jinv (j : Join.t) : Prop := {
     ji_st : structure j;
     ji_linked : Join.linked j = Join.last j;
@@ -1639,10 +1925,13 @@ Section join.
     ji_outer : consistent (Join.outer j);
     ji_pending : Join.pending j = [];
     ji_fresh : Join.ingraph j = true ->
-               (fixed = true /\ Join.refresh j = true) \/
+               (fixed = true /\ Join.changedAt0 j = true) \/
                forall k x, Join.linked j !! k = Some x ->
-                 Join.value j !! k = Some (val_of (Join.vals j) x) \/ x ∈ Join.dirty j;
-    ji_never : fixed = false -> Join.ingraph j = false -> Join.linked j = ∅
+                 Join.value j !! k = Some (val_of (Join.vals j) x) \/ x ∈ Join.dirty j \/ x ∈ Join.cstale j;
+    (* while out of the graph: the repair is armed, or nothing was ever linked *)
+    ji_out : Join.ingraph j = false -> (fixed = true /\ Join.changedAt0 j = true) \/ Join.linked j = ∅;
+    ji_cdefs : Join.cdefs j = cdefs0;
+    ji_cstale : Sinv j
   }.
 
   Lemma post_clear_restale j j' : post j j' -> post j (Join.clear_restale j').
@@ -1650,97 +1939,149 @@ Section join.
     intros (St & H). split; [|exact H]. constructor; simpl; apply St.
   Qed.
 
-  Lemma pre_clear_restale j : pre j -> pre (Join.clear_restale j).
+  (* a state reached by a recompute of the join is a good place to stop *)
+  Lemma post_final jA jB :
+    post jA jB -> consistent (Join.outer jA) -> Join.ingraph jA = true -> Join.cdefs jA = cdefs0 -> Sinv jB ->
+    jinv jB /\ Join.value jB = F_join (Join.vals jB) (Join.outer jB) /\ Join.ingraph jB = true.
   Proof.
-    intros [St H1 H2 H3 H4 H5]. constructor; simpl; auto. constructor; simpl; apply St.
+    intros Hpost Hco Hg Hc Hs.
+    pose proof (post_dom _ _ Hpost) as Hdom. pose proof (post_fresh _ _ Hpost) as Hfr.
+    destruct Hpost as (St & Hl & Hlast & Hout & Hg' & Hd & Hp & Hr & Hc' & Hv).
+    split; [|split; [rewrite Hv, Hout; reflexivity|congruence]].
+    constructor.
+    - exact St.
+    - congruence.
+    - exact Hdom.
+    - rewrite Hout. exact Hco.
+    - exact Hp.
+    - intros _. right. intros k x Hk. left. apply Hfr. exact Hk.
+    - intros Hg''. congruence.
+    - congruence.
+    - exact Hs.
   Qed.
 
-  Definition pass_prep (j : Join.t) : Join.t :=
-    let notified := filter (fun x => bool_decide (x ∈ Join.edges j)) (sorted_keys (Join.dirty j)) in
-    let j := fold_left Join.ChildChanged notified j in
-    Join.Mk (Join.last j) (Join.linked j) (Join.byNode j) (Join.value j) (Join.parents j) (Join.pending j)
-            (Join.refresh j) false (Join.ingraph j) (Join.edges j) ∅ (Join.vals j) (Join.outer j).
-
-  Lemma pass_unfold j :
-    Join.ingraph j = true ->
-    Join.pass fixed j =
-    if Join.restale (Join.Stabilize fixed (pass_prep j))
-    then Join.clear_restale (Join.Stabilize fixed (Join.clear_restale (Join.Stabilize fixed (pass_prep j))))
-    else Join.Stabilize fixed (pass_prep j).
-  Proof. intros Hg. unfold Join.pass. rewrite Hg. reflexivity. Qed.
-
-  Lemma pass_prep_eq j :
-    pass_prep j =
-    Join.Mk (Join.last j) (Join.linked j) (Join.byNode j) (Join.value j) (Join.parents j)
+  Lemma join_pass_spec early j :
+    jinv j -> Join.ingraph j = true ->
+    let j' := Join.pass fixed early j in
+    jinv j' /\ Join.value j' = F_join (Join.vals j') (Join.outer j') /\ Join.ingraph j' = true.
+  Proof.
+    intros [St Hlinked Hdom Houter Hpending Hfresh Hout Hcdefs Hsinv] Hg. cbv zeta.
+    unfold Join.pass, Join.first_run. rewrite Hg.
+    (* inner vars notify *)
+    set (j1 := Join.notify_vars j).
+    assert (E1 : j1 = Join.Mk (Join.last j) (Join.linked j) (Join.byNode j) (Join.value j) (Join.parents j)
       (Join.pending j ++ omap (fun x => Join.byNode j !! x)
          (filter (fun x => bool_decide (x ∈ Join.edges j)) (sorted_keys (Join.dirty j))))
-      (Join.refresh j) false (Join.ingraph j) (Join.edges j) ∅ (Join.vals j) (Join.outer j).
-  Proof. unfold pass_prep. cbv zeta. rewrite ChildChanged_fold. reflexivity. Qed.
-
-  Lemma join_pass_spec j :
-    jinv j -> Join.ingraph j = true ->
-    let j' := Join.pass fixed j in
-    jinv j' /\ Join.value j' = F_join (Join.vals j') (Join.outer j') /\
-    Join.vals j' = Join.vals j /\ Join.outer j' = Join.outer j /\ Join.ingraph j' = true.
-  Proof.
-    intros [St Hlinked Hdom Houter Hpending Hfresh Hnever] Hg. cbv zeta. rewrite (pass_unfold j Hg).
-    assert (Hpre : pre (pass_prep j)).
-    { rewrite pass_prep_eq. constructor; simpl.
-      - constructor; simpl; apply St.
-      - exact Hlinked.
-      - exact Hdom.
-      - exact Houter.
-      - reflexivity.
-      - destruct (Hfresh Hg) as [Hl|Hr]; [left; exact Hl|right].
-        intros k x Hk. destruct (Hr k x Hk) as [Hv|Hd]; [left; exact Hv|right].
-        rewrite Hpending. simpl.
-        apply elem_of_list_omap. exists x. split.
-        + apply elem_of_list_filter. split.
-          * apply bool_decide_pack. apply (st_edges j St Hg). exists k. exact Hk.
-          * apply elem_of_sorted_keys. exact Hd.
-        + apply (st_inverse j St). exact Hk. }
-    assert (Hfields : Join.outer (pass_prep j) = Join.outer j /\ Join.vals (pass_prep j) = Join.vals j /\
-                      Join.ingraph (pass_prep j) = Join.ingraph j).
-    { rewrite pass_prep_eq. simpl. auto. }
-    destruct Hfields as (Ho2 & Hv2 & Hg2).
-    set (j2 := pass_prep j) in *.
-    pose proof (Stabilize_spec j2 Hpre) as Hpost.
-    assert (Hfinal : forall j3, post j2 j3 ->
-              jinv j3 /\ Join.value j3 = F_join (Join.vals j3) (Join.outer j3) /\
-              Join.vals j3 = Join.vals j /\ Join.outer j3 = Join.outer j /\ Join.ingraph j3 = true).
-    { intros j3 (St3 & Hl3 & Hlast3 & Hout3 & Hvals3 & Hg3 & Hd3 & Hp3 & Hr3 & Hv3).
-      rewrite Ho2 in *. rewrite Hv2 in *. rewrite Hg2 in *.
-      split; [|split; [rewrite Hv3, Hvals3, Hout3; reflexivity|split; [exact Hvals3|split; [exact Hout3|congruence]]]].
+      (Join.changedAt0 j) false (Join.ingraph j) (Join.edges j) ∅ (Join.vals j) (Join.outer j)
+      (Join.bvals j) (Join.cdefs j) (Join.cstale j)) by apply notify_vars_eq.
+    assert (St1 : structure j1) by (rewrite E1; constructor; simpl; apply St).
+    assert (Hg1 : Join.ingraph j1 = true) by (rewrite E1; exact Hg).
+    assert (Hs1 : Sinv j1) by (rewrite E1; exact Hsinv).
+    assert (Hc1 : Join.cdefs j1 = cdefs0) by (rewrite E1; exact Hcdefs).
+    (* stale computed nodes below the join (and the early ones) recompute and notify *)
+    set (j2 := Join.phaseA early j1).
+    pose proof (phase_fold_frame (condA early) (Join.cdefs j1) j1) as Hf12.
+    rewrite <- phaseA_fold in Hf12. fold j2 in Hf12.
+    assert (St2 : structure j2) by (eapply structure_phase_frame; eauto).
+    assert (Hclean2 : forall x, range_has (Join.linked j2) x -> x ∉ Join.cstale j2).
+    { destruct Hf12 as (_ & Hl & _). intros x Hx. rewrite Hl in Hx. unfold j2. rewrite phaseA_fold.
+      apply phase_fold_clean; [apply condA_takes|exact St1|exact Hg1| |exact Hx].
+      intros z _ Hz. apply Hs1. exact Hz. }
+    assert (Hpre2 : pre j2).
+    { destruct Hf12 as (A1 & A2 & A3 & A4 & A5 & A6 & A7 & A8 & A9 & A10 & A11 & A12 & A13 & A14).
       constructor.
-      - exact St3.
-      - congruence.
-      - intros k. rewrite Hv3, Hl3. unfold F_join. rewrite lookup_fmap.
-        destruct (Join.outer j !! k); simpl; split; congruence.
-      - rewrite Hout3. exact Houter.
-      - exact Hp3.
-      - intros _. right. intros k x Hk. left. rewrite Hv3, Hvals3. unfold F_join. rewrite lookup_fmap.
-        rewrite Hl3 in Hk. rewrite Hk. reflexivity.
-      - intros _ Hg'. congruence. }
-    destruct (Join.restale (Join.Stabilize fixed j2)).
-    - (* link marked the node stale: it runs a second time in the same pass *)
-      set (j3 := Join.clear_restale (Join.Stabilize fixed j2)).
-      assert (Hpost3 : post j2 j3) by (apply post_clear_restale; exact Hpost).
-      assert (Hpre3 : pre j3) by (eapply post_pre; [|exact Hpost3]; rewrite Ho2; exact Houter).
-      pose proof (post_clear_restale _ _ (Stabilize_spec j3 Hpre3)) as Hpost4.
-      destruct Hpost3 as (_ & _ & _ & Hout3 & Hvals3 & Hg3 & _).
-      apply Hfinal. destruct Hpost4 as (St4 & Hl4 & Hlast4 & Hout4 & Hvals4 & Hg4 & Hd4 & Hp4 & Hr4 & Hv4).
-      unfold post. rewrite Hl4, Hlast4, Hout4, Hvals4, Hg4, Hv4, Hout3, Hvals3, Hg3. auto 10.
-    - apply Hfinal. exact Hpost.
+      - exact St2.
+      - rewrite A2, A1, E1. exact Hlinked.
+      - intros k. rewrite A4, A2, E1. apply Hdom.
+      - rewrite A11, E1. exact Houter.
+      - rewrite A10, E1. reflexivity.
+      - destruct (Hfresh Hg) as [Hl|Hr]; [left; rewrite A6, E1; exact Hl|right].
+        unfold j2. rewrite phaseA_fold. apply phase_fold_fresh; [apply condA_takes|exact St1|exact Hg1|].
+        intros k x Hk. rewrite E1 in Hk. simpl in Hk. rewrite E1. simpl.
+        destruct (Hr k x Hk) as [Hv|[Hd|Hc]].
+        + left. exact Hv.
+        + right. left. rewrite Hpending. simpl.
+          apply elem_of_list_omap. exists x. split.
+          * apply elem_of_list_filter. split.
+            -- apply bool_decide_pack. apply (st_edges j St Hg). exists k. exact Hk.
+            -- apply elem_of_sorted_keys. exact Hd.
+          * apply (st_inverse j St). exact Hk.
+        + right. right. split; [exact Hc|]. apply Hsinv. exact Hc. }
+    assert (Hq2 : Qinv j2) by (right; exact Hclean2).
+    assert (Hs2 : Sinv j2).
+    { destruct Hf12 as (_ & _ & _ & _ & _ & _ & _ & _ & _ & _ & _ & A12 & A13 & _).
+      intros x Hx. rewrite A12. apply Hs1. apply A13. exact Hx. }
+    assert (Hfields2 : Join.outer j2 = Join.outer j /\ Join.ingraph j2 = true /\ Join.cdefs j2 = cdefs0).
+    { destruct Hf12 as (_ & _ & _ & _ & _ & _ & _ & A8 & _ & _ & A11 & A12 & _).
+      rewrite A11, A8, A12, E1. simpl. auto. }
+    destruct Hfields2 as (Ho2 & Hg2 & Hc2).
+    (* the join's first run *)
+    destruct (Stabilize_spec j2 Hpre2) as (Hpost3 & _).
+    destruct (Stabilize_QS j2 Hq2 Hs2) as (Hq3 & Hs3).
+    set (j3 := Join.Stabilize fixed j2) in *.
+    (* the other stale necessary nodes recompute; those the join has just linked notify it *)
+    set (j4 := Join.phaseC j3).
+    pose proof (phase_fold_frame condC (Join.cdefs j3) j3) as Hf34.
+    rewrite <- phaseC_fold in Hf34. fold j4 in Hf34.
+    pose proof Hpost3 as (St3 & Hl3 & Hlast3 & Hout3 & Hg3 & Hd3 & Hp3 & Hr3 & Hc3 & Hv3).
+    assert (Hg3' : Join.ingraph j3 = true) by congruence.
+    assert (Hs4 : Sinv j4).
+    { destruct Hf34 as (_ & _ & _ & _ & _ & _ & _ & _ & _ & _ & _ & A12 & A13 & _).
+      intros x Hx. rewrite A12. apply Hs3. apply A13. exact Hx. }
+    assert (St4 : structure j4) by (eapply structure_phase_frame; eauto).
+    pose proof Hf34 as (A1 & A2 & A3 & A4 & A5 & A6 & A7 & A8 & A9 & A10 & A11 & A12 & A13 & A14).
+    rewrite A7.
+    destruct (Join.restale j3) eqn:Er.
+    - (* link marked the join stale: it runs a second time, after the nodes it has just linked *)
+      assert (Hpre5 : pre (Join.clear_restale j4)).
+      { constructor; simpl.
+        - constructor; simpl; apply St4.
+        - rewrite A2, A1. congruence.
+        - intros k. rewrite A4, A2. apply (post_dom _ _ Hpost3).
+        - rewrite A11, Hout3, Ho2. exact Houter.
+        - rewrite A10. exact Hd3.
+        - right. unfold j4. rewrite phaseC_fold. apply phase_fold_fresh; [apply condC_takes|exact St3|exact Hg3'|].
+          intros k x Hk. left. apply (post_fresh _ _ Hpost3). exact Hk. }
+      destruct (Stabilize_spec _ Hpre5) as (Hpost6 & _).
+      destruct (Stabilize_QS (Join.clear_restale j4)) as (_ & Hs6).
+      { right. intros x Hx. simpl in Hx. rewrite A2 in Hx. unfold j4. rewrite phaseC_fold.
+        apply phase_fold_clean; [apply condC_takes|exact St3|exact Hg3'| |exact Hx].
+        intros z _ Hz. apply Hs3. exact Hz. }
+      { exact Hs4. }
+      apply (post_final (Join.clear_restale j4)).
+      + apply post_clear_restale. exact Hpost6.
+      + simpl. rewrite A11, Hout3, Ho2. exact Houter.
+      + simpl. congruence.
+      + simpl. congruence.
+      + intros x Hx. simpl in *. apply Hs6. exact Hx.
+    - (* nothing was linked: no linked node was stale, the join has nothing more to see *)
+      destruct Hq3 as [Hr|Hq3]; [congruence|].
+      destruct (phase_fold_quiet condC (Join.cdefs j3) j3 condC_only St3 Hg3' Hq3) as (Hp4 & Hv4).
+      rewrite <- phaseC_fold in Hp4, Hv4. fold j4 in Hp4, Hv4.
+      apply (post_final j2).
+      + unfold post. split; [exact St4|]. rewrite A2, A1, A11, A8, A10, Hp4, A6, A12, A4.
+        repeat (split; [assumption|]).
+        rewrite Hv3. unfold F_join. apply map_eq. intros k. rewrite !lookup_fmap.
+        destruct (Join.outer j2 !! k) as [x|] eqn:Eo; simpl; [|reflexivity].
+        unfold val_of. rewrite Hv4; [reflexivity|]. exists k. rewrite Hl3. exact Eo.
+      + rewrite Ho2. exact Houter.
+      + exact Hg2.
+      + exact Hc2.
+      + exact Hs4.
   Qed.
 
   Definition event_ok (e : Join.ev) : Prop :=
-    match e with Join.SetOuter m => consistent m | _ => True end.
+    match e with
+    | Join.SetOuter m => consistent m
+    | Join.SetInner x _ => x ∉ map fst cdefs0      (* only vars are written directly *)
+    | _ => True
+    end.
 
   Lemma jinv_step j e :
     jinv j -> event_ok e -> (fixed = true \/ e <> Join.Unobserve) -> jinv (Join.step fixed j e).
   Proof.
-    intros Hinv Hok Hun. pose proof Hinv as [St Hlinked Hdom Houter Hpending Hfresh Hnever].
-    destruct e as [m|x v| | |]; simpl.
+    intros Hinv Hok Hun. pose proof Hinv as [St Hlinked Hdom Houter Hpending Hfresh Hout Hcdefs Hsinv].
+    destruct e as [m|x v|i v| | |early]; simpl.
     - constructor; simpl.
       + constructor; simpl; apply St.
       + exact Hlinked.
@@ -1748,7 +2089,9 @@ Section join.
       + exact Hok.
       + exact Hpending.
       + exact Hfresh.
-      + exact Hnever.
+      + exact Hout.
+      + exact Hcdefs.
+      + exact Hsinv.
     - constructor; simpl.
       + constructor; simpl; apply St.
       + exact Hlinked.
@@ -1758,11 +2101,28 @@ Section join.
       + intros Hg. destruct (Hfresh Hg) as [Hl|Hr]; [left; exact Hl|right].
         intros k x' Hk. rewrite Hg. simpl.
         destruct (decide (x' = x)) as [->|Hne].
-        * right. rewrite bool_decide_true by (apply (st_edges j St Hg); exists k; exact Hk). set_solver.
-        * destruct (Hr k x' Hk) as [Hv|Hd].
+        * right. left. rewrite bool_decide_true by (apply (st_edges j St Hg); exists k; exact Hk). set_solver.
+        * destruct (Hr k x' Hk) as [Hv|[Hd|Hc]].
           -- left. rewrite Hv. unfold val_of. rewrite lookup_insert_ne by congruence. reflexivity.
-          -- right. destruct (bool_decide (x ∈ Join.edges j)); set_solver.
-      + exact Hnever.
+          -- right. left. destruct (bool_decide (x ∈ Join.edges j)); set_solver.
+          -- right. right. exact Hc.
+      + exact Hout.
+      + exact Hcdefs.
+      + exact Hsinv.
+    - constructor; simpl.
+      + constructor; simpl; apply St.
+      + exact Hlinked.
+      + exact Hdom.
+      + exact Houter.
+      + exact Hpending.
+      + intros Hg. destruct (Hfresh Hg) as [Hl|Hr]; [left; exact Hl|right].
+        intros k x Hk. destruct (Hr k x Hk) as [Hv|[Hd|Hc]]; [left; exact Hv|right; left; exact Hd|].
+        right. right. set_solver.
+      + exact Hout.
+      + exact Hcdefs.
+      + intros x. simpl. rewrite elem_of_union, elem_of_list_to_set. intros [Hx|Hx]; [apply Hsinv; exact Hx|].
+        apply elem_of_list_fmap in Hx as (p & -> & Hp). apply elem_of_list_filter in Hp as [_ Hp].
+        apply elem_of_list_fmap. eauto.
     - destruct (Join.ingraph j) eqn:Hg; [|exact Hinv].
       constructor; simpl.
       + constructor; simpl; try apply St. discriminate.
@@ -1771,7 +2131,9 @@ Section join.
       + exact Houter.
       + exact Hpending.
       + discriminate.
-      + intros Hf _. destruct Hun as [Hun|Hun]; congruence.
+      + intros _. left. destruct Hun as [Hun|Hun]; [auto|congruence].
+      + exact Hcdefs.
+      + exact Hsinv.
     - destruct (Join.ingraph j) eqn:Hg; [exact Hinv|].
       constructor; simpl.
       + constructor; simpl; try apply St. intros _ x. rewrite elem_of_list_to_set. apply (st_parents j St).
@@ -1779,15 +2141,32 @@ Section join.
       + exact Hdom.
       + exact Houter.
       + exact Hpending.
-      + intros _. destruct fixed eqn:Ef; [left; auto|right].
-        intros k x Hk. rewrite (Hnever eq_refl eq_refl) in Hk. rewrite lookup_empty in Hk. discriminate.
+      + intros _. destruct (Hout eq_refl) as [Hl|Hempty]; [left; exact Hl|right].
+        intros k x Hk. rewrite Hempty, lookup_empty in Hk. discriminate.
       + discriminate.
+      + exact Hcdefs.
+      + intros x. simpl. rewrite elem_of_union, elem_of_list_to_set. intros [Hx|Hx]; [apply Hsinv; exact Hx|].
+        apply elem_of_list_filter in Hx as [Hx _]. apply is_lazy_known. exact Hx.
     - destruct (Join.ingraph j) eqn:Hg.
       + apply join_pass_spec; assumption.
-      + unfold Join.pass. rewrite Hg. exact Hinv.
+      + (* the join is not in the graph: only nodes observed elsewhere recompute *)
+        unfold Join.pass. rewrite Hg. rewrite phaseC_fold.
+        pose proof (phase_fold_frame condC (Join.cdefs j) j)
+          as (A1 & A2 & A3 & A4 & A5 & A6 & A7 & A8 & A9 & A10 & A11 & A12 & A13 & A14).
+        set (j' := fold_left (pstep condC) (Join.cdefs j) j) in *.
+        constructor.
+        * eapply structure_phase_frame; [apply phase_fold_frame|exact St].
+        * congruence.
+        * intros k. rewrite A4, A2. apply Hdom.
+        * rewrite A11. exact Houter.
+        * rewrite A14 by exact Hg. exact Hpending.
+        * intros Hg'. congruence.
+        * intros _. rewrite A6, A2. apply Hout. exact Hg.
+        * congruence.
+        * intros x Hx. rewrite A12. apply Hsinv. apply A13. exact Hx.
   Qed.
 
-  Lemma jinv_init vals0 : jinv (Join.init vals0).
+  Lemma jinv_init vals0 bvals0 : jinv (Join.init vals0 bvals0 cdefs0).
   Proof.
     constructor; simpl.
     - constructor; simpl.
@@ -1801,46 +2180,53 @@ Section join.
     - intros k x Hk. rewrite lookup_empty in Hk. discriminate.
     - reflexivity.
     - discriminate.
+    - intros _. right. reflexivity.
     - reflexivity.
+    - intros x. simpl. rewrite elem_of_list_to_set. auto.
   Qed.
 
   Lemma jinv_run (evs : list Join.ev) j :
     jinv j ->
-    (forall m, Join.SetOuter m ∈ evs -> consistent m) ->
+    (forall e, e ∈ evs -> event_ok e) ->
     (fixed = true \/ Join.Unobserve ∉ evs) ->
     jinv (fold_left (Join.step fixed) evs j).
   Proof.
     revert j. induction evs as [|e evs IH]; intros j Hinv Hok Hun; simpl; [exact Hinv|].
     apply IH.
     - apply jinv_step; [exact Hinv| |].
-      + destruct e; simpl; auto. apply Hok. left.
+      + apply Hok. left.
       + destruct Hun as [Hf|Hun]; [left; exact Hf|right]. intros ->. apply Hun. left.
-    - intros m Hm. apply Hok. right. exact Hm.
+    - intros e' He'. apply Hok. right. exact He'.
     - destruct Hun as [Hf|Hun]; [left; exact Hf|right]. intros Hin. apply Hun. right. exact Hin.
   Qed.
 
   (** Join equals "read every inner incremental" after every pass in which it is observed,
-      for every history of outer-map changes, inner writes, (un)observations and passes --
+      for every history of outer-map changes, writes to inner vars and to the base vars of
+      computed inner nodes, (un)observations and passes, and for every order in which the
+      engine schedules the computed nodes the join does not depend on yet ([early]) --
       provided each inner node keeps to one key ([consistent], witnessed by [keyOf]) and
-      either the node is never unobserved or the repaired variant is used. *)
-  Theorem join_correct (vals0 : zmap) (evs : list Join.ev) :
-    (forall m, Join.SetOuter m ∈ evs -> consistent m) ->
+      either the node is never unobserved or the variant with the relink repair is used. *)
+  Theorem join_correct (vals0 bvals0 : zmap) (evs : list Join.ev) (early : list Z) :
+    (forall e, e ∈ evs -> event_ok e) ->
     (fixed = true \/ Join.Unobserve ∉ evs) ->
-    let j := fold_left (Join.step fixed) (evs ++ [Join.Pass]) (Join.init vals0) in
+    let j := fold_left (Join.step fixed) (evs ++ [Join.Pass early]) (Join.init vals0 bvals0 cdefs0) in
     Join.ingraph j = true -> Join.value j = F_join (Join.vals j) (Join.outer j).
   Proof.
     intros Hok Hun j. unfold j. rewrite fold_left_app. simpl.
-    set (j0 := fold_left (Join.step fixed) evs (Join.init vals0)).
+    set (j0 := fold_left (Join.step fixed) evs (Join.init vals0 bvals0 cdefs0)).
     assert (Hinv : jinv j0) by (apply jinv_run; [apply jinv_init|exact Hok|exact Hun]).
     destruct (Join.ingraph j0) eqn:Hg.
     - intros _. apply join_pass_spec; assumption.
-    - unfold Join.pass. rewrite Hg. intros Hg'. congruence.
+    - unfold Join.pass. rewrite Hg. rewrite phaseC_fold.
+      pose proof (phase_fold_frame condC (Join.cdefs j0) j0) as (_ & _ & _ & _ & _ & _ & _ & A8 & _).
+      intros Hg'. congruence.
   Qed.
 End join.
 
-(** ** the code as it is ([fixed = false]) does not satisfy the unrestricted statement *)
+(** ** the code before the relink repair ([fixed = false]) does not satisfy the unrestricted
+    statement, and neither variant does once an inner node sits under two keys or moves *)
 Definition join_holds (fixed : bool) (vals0 : zmap) (evs : list Join.ev) : Prop :=
-  let j := fold_left (Join.step fixed) (evs ++ [Join.Pass]) (Join.init vals0) in
+  let j := fold_left (Join.step fixed) (evs ++ [Join.Pass []]) (Join.init vals0 ∅ []) in
   Join.ingraph j = true -> Join.value j = F_join (Join.vals j) (Join.outer j).
 
 Definition injective_map (m : zmap) : Prop := forall k k' x, m !! k = Some x -> m !! k' = Some x -> k = k'.
@@ -1848,7 +2234,7 @@ Definition injective_map (m : zmap) : Prop := forall k k' x, m !! k = Some x -> 
 (* witness 1: unobserve the join, write an inner var, observe again *)
 Definition relink_vals0 : zmap := {[0 := 1]}.
 Definition relink_history : list Join.ev :=
-  [Join.Observe; Join.SetOuter {[0 := 0]}; Join.Pass; Join.Unobserve; Join.SetInner 0 5; Join.Observe].
+  [Join.Observe; Join.SetOuter {[0 := 0]}; Join.Pass []; Join.Unobserve; Join.SetInner 0 5; Join.Observe].
 
 Lemma relink_history_consistent :
   forall m, Join.SetOuter m ∈ relink_history -> consistent (fun _ => 0) m.
@@ -1864,14 +2250,14 @@ Theorem join_refuted_relink :
 Proof.
   exists relink_vals0, relink_history, (fun _ => 0). split; [exact relink_history_consistent|].
   unfold join_holds. intros H.
-  assert (Hg : Join.ingraph (fold_left (Join.step false) (relink_history ++ [Join.Pass]) (Join.init relink_vals0)) = true)
+  assert (Hg : Join.ingraph (fold_left (Join.step false) (relink_history ++ [Join.Pass []]) (Join.init relink_vals0 ∅ [])) = true)
     by (vm_compute; reflexivity).
-  specialize (H Hg). apply (f_equal (fun m : zmap => m !! 0)) in H. vm_compute in H. discriminate.
+  specialize (H Hg). clear Hg. apply (f_equal (fun m : zmap => m !! 0)) in H. vm_compute in H. discriminate H.
 Qed.
 
 (* the value the code leaves behind, and the one it should hold *)
 Example join_relink_stale_value :
-  let j := fold_left (Join.step false) (relink_history ++ [Join.Pass]) (Join.init relink_vals0) in
+  let j := fold_left (Join.step false) (relink_history ++ [Join.Pass []]) (Join.init relink_vals0 ∅ []) in
   Join.value j !! 0 = Some 1 /\ F_join (Join.vals j) (Join.outer j) !! 0 = Some 5.
 Proof. vm_compute. auto. Qed.
 
@@ -1879,13 +2265,13 @@ Proof. vm_compute. auto. Qed.
 Example join_relink_fixed : join_holds true relink_vals0 relink_history.
 Proof.
   unfold join_holds. intros Hg.
-  exact (join_correct true (fun _ => 0) relink_vals0 relink_history relink_history_consistent (or_introl eq_refl) Hg).
+  exact (join_correct true (fun _ => 0) relink_vals0 ∅ relink_history [] relink_history_consistent (or_introl eq_refl) Hg).
 Qed.
 
 (* witness 2: one inner node under two keys of the same outer map; no unobserve involved,
    and the repair for witness 1 does not help *)
 Definition shared_history : list Join.ev :=
-  [Join.Observe; Join.SetOuter {[0 := 0; 1 := 0]}; Join.Pass; Join.SetInner 0 5].
+  [Join.Observe; Join.SetOuter {[0 := 0; 1 := 0]}; Join.Pass []; Join.SetInner 0 5].
 
 Theorem join_refuted_shared_inner :
   exists vals0 evs, Join.Unobserve ∉ evs /\ forall fixed, ~ join_holds fixed vals0 evs.
@@ -1894,16 +2280,16 @@ Proof.
   - unfold shared_history. intros Hm.
     repeat (apply elem_of_cons in Hm as [Hm|Hm]; [try discriminate|]). inversion Hm.
   - intros fixed H. unfold join_holds in H.
-    assert (Hg : Join.ingraph (fold_left (Join.step fixed) (shared_history ++ [Join.Pass]) (Join.init relink_vals0)) = true)
+    assert (Hg : Join.ingraph (fold_left (Join.step fixed) (shared_history ++ [Join.Pass []]) (Join.init relink_vals0 ∅ [])) = true)
       by (destruct fixed; vm_compute; reflexivity).
-    specialize (H Hg). apply (f_equal (fun m : zmap => m !! 0)) in H. destruct fixed; vm_compute in H; discriminate.
+    specialize (H Hg). clear Hg. apply (f_equal (fun m : zmap => m !! 0)) in H. destruct fixed; vm_compute in H; discriminate H.
 Qed.
 
 (* witness 3: every outer map injective, no unobserve; an inner node moves from key 2 to
    the smaller key 0 between two passes *)
 Definition moved_vals0 : zmap := {[7 := 8]}.
 Definition moved_history : list Join.ev :=
-  [Join.Observe; Join.SetOuter {[2 := 7]}; Join.Pass; Join.SetOuter {[0 := 7]}; Join.Pass; Join.SetInner 7 3].
+  [Join.Observe; Join.SetOuter {[2 := 7]}; Join.Pass []; Join.SetOuter {[0 := 7]}; Join.Pass []; Join.SetInner 7 3].
 
 Theorem join_refuted_moved_inner :
   exists vals0 evs,
@@ -1918,9 +2304,9 @@ Proof.
       inversion Hm; subst; intros k k' x Hk Hk';
       apply lookup_singleton_Some in Hk as [<- _]; apply lookup_singleton_Some in Hk' as [<- _]; reflexivity.
   - intros fixed H. unfold join_holds in H.
-    assert (Hg : Join.ingraph (fold_left (Join.step fixed) (moved_history ++ [Join.Pass]) (Join.init moved_vals0)) = true)
+    assert (Hg : Join.ingraph (fold_left (Join.step fixed) (moved_history ++ [Join.Pass []]) (Join.init moved_vals0 ∅ [])) = true)
       by (destruct fixed; vm_compute; reflexivity).
-    specialize (H Hg). apply (f_equal (fun m : zmap => m !! 0)) in H. destruct fixed; vm_compute in H; discriminate.
+    specialize (H Hg). clear Hg. apply (f_equal (fun m : zmap => m !! 0)) in H. destruct fixed; vm_compute in H; discriminate H.
 Qed.
 
 (** * MapValues with an arbitrary [equal]: the documented promise
@@ -2013,11 +2399,11 @@ Proof.
 Qed.
 
 Example join_hypotheses_example :
-  let evs := [Join.Observe; Join.SetOuter {[0 := 0; 1 := 1]}; Join.Pass; Join.SetInner 1 7; Join.Pass;
+  let evs := [Join.Observe; Join.SetOuter {[0 := 0; 1 := 1]}; Join.Pass []; Join.SetInner 1 7; Join.Pass [];
               Join.SetOuter {[0 := 4; 1 := 1]}; Join.SetInner 4 9] in
   let keyOf := fun x => Z.rem x 4 in
   (forall m, Join.SetOuter m ∈ evs -> consistent keyOf m) /\ Join.Unobserve ∉ evs /\
-  let j := fold_left (Join.step false) (evs ++ [Join.Pass]) (Join.init {[0 := 1; 1 := 2; 4 := 5]}) in
+  let j := fold_left (Join.step false) (evs ++ [Join.Pass []]) (Join.init {[0 := 1; 1 := 2; 4 := 5]} ∅ []) in
   Join.ingraph j = true /\ entries (Join.value j) = [(0, 9); (1, 7)].
 Proof.
   split; [|split].
